@@ -22,7 +22,7 @@ Inductive refusal :=
 | NoCode | BadCode | MissingClaims | TooEarly | Invalid (* audience / topic / expired *)
 | DeniedBooking | NoScopes.
 
-Inductive reason := ClientClose | NetLoss | Expiry | Cancel | Evict | Refused (r : refusal).
+Inductive reason := ClientClose | NetLoss | Expiry | Cancel | Evict | Shutdown | Refused (r : refusal).
 
 Inductive outcome := Join | Refuse (r : refusal).
 
@@ -41,7 +41,8 @@ Record conn := mkconn {
   cancelled : bool;     (* the watcher closed `cancelled` *)
   done_ : bool;         (* readPump has returned (`done` closed) *)
   timer_fired : bool;
-  denied_ : bool }.     (* the deny channel was closed *)
+  denied_ : bool;       (* the deny channel was closed *)
+  shutdown_ : bool }.   (* the relay's `closed` channel was closed (shutdown request) *)
 
 Definition holds (c : conn) (k : res) : bool :=
   match k with
@@ -56,28 +57,33 @@ Definition held (c : conn) : list res := filter (holds c) all_res.
 Definition connect (o : outcome) (tp : N) (has_bid : bool) : conn :=
   match o with
   | Join =>
-      mkconn true false tp true true true true true has_bid true false false false false false false
+      mkconn true false tp true true true true true has_bid true false false false false false false false
   | Refuse r =>
       (* the chanmap entry of a DeniedBooking refusal is added and deleted again inside serveWs;
          every other refusal happens before it is made.  The socket is NOT closed (F08a). *)
-      mkconn false true tp (after_upgrade r) false false false false false false false false false false false false
+      mkconn false true tp (after_upgrade r) false false false false false false false false false false false false false
   end.
 
 (* ---- something ends the connection ---- *)
 Definition set_sock_dead (c : conn) : conn :=
   mkconn (joined c) true (topic c) (h_sock c) (h_reader c) (h_writer c) (h_watcher c) (h_member c) (h_chan c) (h_timer c)
-         true (send_closed c) (cancelled c) (done_ c) (timer_fired c) (denied_ c).
+         true (send_closed c) (cancelled c) (done_ c) (timer_fired c) (denied_ c) (shutdown_ c).
 Definition set_timer_fired (c : conn) : conn :=
   mkconn (joined c) true (topic c) (h_sock c) (h_reader c) (h_writer c) (h_watcher c) (h_member c) (h_chan c) (h_timer c)
-         (sock_dead c) (send_closed c) (cancelled c) (done_ c) true (denied_ c).
+         (sock_dead c) (send_closed c) (cancelled c) (done_ c) true (denied_ c) (shutdown_ c).
 (* DeleteAndCloseParent: the booking's entries leave the store, their channels are closed *)
 Definition set_denied (c : conn) : conn :=
   mkconn (joined c) true (topic c) (h_sock c) (h_reader c) (h_writer c) (h_watcher c) (h_member c) false (h_timer c)
-         (sock_dead c) (send_closed c) (cancelled c) (done_ c) (timer_fired c) true.
+         (sock_dead c) (send_closed c) (cancelled c) (done_ c) (timer_fired c) true (shutdown_ c).
 (* Hub.drop: out of the topic, queue closed, chanmap child deleted *)
 Definition hub_drop (c : conn) : conn :=
   mkconn (joined c) true (topic c) (h_sock c) (h_reader c) (h_writer c) (h_watcher c) false false (h_timer c)
-         (sock_dead c) true (cancelled c) (done_ c) (timer_fired c) (denied_ c).
+         (sock_dead c) true (cancelled c) (done_ c) (timer_fired c) (denied_ c) (shutdown_ c).
+
+(* close(closed): every writePump's select has `case <-closed: return` *)
+Definition set_shutdown (c : conn) : conn :=
+  mkconn (joined c) true (topic c) (h_sock c) (h_reader c) (h_writer c) (h_watcher c) (h_member c) (h_chan c) (h_timer c)
+         (sock_dead c) (send_closed c) (cancelled c) (done_ c) (timer_fired c) (denied_ c) true.
 
 Definition end_with (r : reason) (c : conn) : conn :=
   if negb (joined c) then c else
@@ -86,6 +92,7 @@ Definition end_with (r : reason) (c : conn) : conn :=
   | Expiry => set_timer_fired c
   | Cancel => set_denied c
   | Evict => hub_drop c
+  | Shutdown => set_shutdown c
   | Refused _ => c
   end.
 
@@ -94,21 +101,21 @@ Definition end_with (r : reason) (c : conn) : conn :=
 Definition step_reader (c : conn) : conn :=
   if h_reader c && sock_dead c
   then mkconn (joined c) (ended c) (topic c) false false (h_writer c) (h_watcher c) false false (h_timer c)
-              true true (cancelled c) true (timer_fired c) (denied_ c)
+              true true (cancelled c) true (timer_fired c) (denied_ c) (shutdown_ c)
   else c.
 
-(* writePump: queue closed, or cancelled (or shutdown) -> return; deferred conn.Close() *)
+(* writePump: queue closed, cancelled, or shutdown -> return; deferred conn.Close() *)
 Definition step_writer (c : conn) : conn :=
-  if h_writer c && (send_closed c || cancelled c)
+  if h_writer c && (send_closed c || cancelled c || shutdown_ c)
   then mkconn (joined c) (ended c) (topic c) false (h_reader c) false (h_watcher c) (h_member c) (h_chan c) (h_timer c)
-              true (send_closed c) (cancelled c) (done_ c) (timer_fired c) (denied_ c)
+              true (send_closed c) (cancelled c) (done_ c) (timer_fired c) (denied_ c) (shutdown_ c)
   else c.
 
 (* watcher: timer, deny or done -> timer.Stop(), close(cancelled), conn.Close() *)
 Definition step_watcher (c : conn) : conn :=
   if h_watcher c && (timer_fired c || denied_ c || done_ c)
   then mkconn (joined c) (ended c) (topic c) false (h_reader c) (h_writer c) false (h_member c) (h_chan c) false
-              true (send_closed c) true (done_ c) (timer_fired c) (denied_ c)
+              true (send_closed c) true (done_ c) (timer_fired c) (denied_ c) (shutdown_ c)
   else c.
 
 (* "once its pumps have taken their next step": each goroutine gets the chance to run, twice
